@@ -35,7 +35,8 @@ def _case(draw):
         if kind != 'value':
             behave[k] = kind
     return {'cfg': cfg, 'calls': calls, 'behave': behave, 'order': draw(st.sampled_from(['fwd', 'rev', 'rot'])),
-            'bdur': bdur, 'idur': draw(st.sampled_from([0, 0, H.U, 4 * H.U])), 'mutate': None, 'fresh': 1}
+            'bdur': bdur, 'idur': draw(st.sampled_from([0, 0, H.U, 4 * H.U])), 'mutate': None, 'fresh': 1,
+            'raise_type': draw(st.sampled_from(sorted(H.RAISE_TYPES)))}
 
 
 def strategy(tier):
